@@ -54,6 +54,8 @@ def check(co, path, n_lines, problems):
         offs[i.offset] = k
     n = len(ins)
     end = len(co.co_code)
+    # an instruction carries its EXTENDED_ARG prefixes: only the first prefix (or the bare instruction) is a jump target
+    behind_prefix = set(i.offset for k, i in enumerate(ins) if k > 0 and ins[k - 1].opname == 'EXTENDED_ARG')
     hasjump = set(dis.hasjrel) | set(dis.hasjabs)
     nlocals = len(co.co_varnames)
     ncell = len(co.co_cellvars) + len(co.co_freevars)
@@ -63,6 +65,8 @@ def check(co, path, n_lines, problems):
         if op in hasjump:
             if i.argval not in offs:
                 problems.append("%s: offset %d %s jumps to %r, which is not an instruction boundary inside the code (size %d)" % (path, i.offset, i.opname, i.argval, end))
+            elif i.argval in behind_prefix:
+                problems.append("%s: offset %d %s jumps to %r, behind the EXTENDED_ARG prefix of that instruction (its argument is decoded without the prefix)" % (path, i.offset, i.opname, i.argval))
         if arg is None:
             continue
         if op in dis.hasconst and not (0 <= arg < len(co.co_consts)):
@@ -88,6 +92,7 @@ def check(co, path, n_lines, problems):
         return line_check(co, path, n_lines, problems)
     NOFALL = {'RETURN_VALUE', 'RAISE_VARARGS', 'RERAISE', 'JUMP_FORWARD', 'JUMP_ABSOLUTE', 'JUMP_BACKWARD', 'JUMP_BACKWARD_NO_INTERRUPT', 'RETURN_CONST'}
     depth_at = {}
+    inconsistent = {}
     work = [(0, 0)]
     handlers = []
     if V >= (3, 11):
@@ -119,6 +124,8 @@ def check(co, path, n_lines, problems):
                     problems.append("%s: control falls off the end of the code" % path)
                 break
             if off in depth_at:
+                if depth_at[off] != d and off not in inconsistent:
+                    inconsistent[off] = (depth_at[off], d)
                 if depth_at[off] >= d:
                     break
             depth_at[off] = d
@@ -158,6 +165,8 @@ def check(co, path, n_lines, problems):
                 break
             off = ins[nxt].offset
             d = nd
+    # (depths that differ at a merge point are NOT reported: dis.stack_effect gives upper bounds on exception edges, so
+    #  CPython's own `with` code shows such differences; like compile.c's stackdepth() only the maximum is used)
     if maxd > co.co_stacksize:
         problems.append("%s: co_stacksize %d < reachable operand-stack depth %d" % (path, co.co_stacksize, maxd))
     line_check(co, path, n_lines, problems)
